@@ -520,7 +520,37 @@ func c25Wrappers(p *an.Prog, r *an.R) {
 				hit := false
 				an.Inspect(g.Node(l), false, func(x ast.Node) bool {
 					c, ok := x.(*ast.CallExpr)
-					if !ok || len(c.Args) != 1 || !an.UsesObj(info, c.Args[0], ev) {
+					if !ok {
+						return true
+					}
+					// handed to a function of the module that sends its parameter on every path
+					if hd := p.Decl(an.Callee(info, c)); hd != nil && hd.Decl.Body != nil && len(c.Args) > 1 {
+						for ai, a := range c.Args {
+							if !an.UsesObj(info, a, ev) {
+								continue
+							}
+							if prm := an.Param(hd.Pkg.TypesInfo, hd.Decl, ai); prm != nil {
+								hi := hd.Pkg.TypesInfo
+								hg := an.NewG(hi, hd.Decl.Body)
+								sends := func(k an.Loc) bool {
+									f := false
+									an.Inspect(hg.Node(k), false, func(y ast.Node) bool {
+										if c2, ok := y.(*ast.CallExpr); ok && len(c2.Args) == 1 && an.UsesObj(hi, c2.Args[0], prm) {
+											if cf := an.Callee(hi, c2); cf != nil && cf.Name() == "Send" {
+												f = true
+											}
+										}
+										return true
+									})
+									return f
+								}
+								if !hg.Reach(hg.Entry(), false, &an.Search{ExitIsTarget: true, Cut: sends}) {
+									hit = true
+								}
+							}
+						}
+					}
+					if len(c.Args) != 1 || !an.UsesObj(info, c.Args[0], ev) {
 						return true
 					}
 					if cf := an.Callee(info, c); cf != nil && cf.Name() == "Send" {
